@@ -335,7 +335,12 @@ func (m *Module) AssignGlobalIDs() error {
 				got := n.ID()
 				return errors.Errorf("invalid global ID, expected %s, got %s", enc.GlobalID(want), enc.GlobalID(got))
 			}
-			n.SetID(id)
+			if n.ID() != id {
+				// Only write when the ID changes, so that printing an already
+				// numbered value never writes (concurrent printers read IDs
+				// outside of the lock).
+				n.SetID(id)
+			}
 			id++
 		}
 		return nil
